@@ -7,6 +7,26 @@ PY = '/venv/bin/python -B -m vf.run'
 
 # id -> (engine, category, technique, level text, level_note, design_ref)
 CHECKS = {
+ 'C07': ('VX+DM', 'exploration',
+         'bounded-exhaustive product of attribute declarations x boundary value grids x write paths, five independent read paths as differential oracle',
+         '114 attribute declarations (every basic type with each converter-relevant option, Required and Optional) x per-type boundary grids x {INSERT, UPDATE} on real SQLite: the value a fresh session reads by pk, by projection, and finds when the value is used as query parameter / get() argument / optimistic-check operand equals the value the writing session saw after flush. Plus exhaustive grids over the pure-Python interval, timestamp and DATETIME codecs, precision 0..6 and converter round trips of the PostgreSQL and MySQL providers.',
+         'PostgreSQL/MySQL server-side storage is out of reach: only their Python converters run (stub drivers, model-based). Float equality uses the documented 1e-14 tolerance, NaN is not judged, values Pony refuses are counted.', 'DESIGN.md section 3 C07'),
+ 'C08': ('VX', 'exploration',
+         'bounded-exhaustive product of declarations x candidates around every bound x six entry points against a three-valued reference predicate',
+         'About 900 (thorough 2,000) declarations mapped for real (int size x unsigned x min x max, float/Decimal bounds incl. zero/negative/fractional, str max_len x autostrip x nullable, py_check, default, the other basic types, malformed declarations) x candidates b-1,b,b+1 around every bound plus wrong types, through constructor, default, assignment, set(), Entity.get(attr=v) and select(attr=v); compared with a reference predicate written from the API reference and differentially across entry points.',
+         'the reference predicate (vf/props/_c08_ref.py) is trusted base; undocumented conversions are "undecided": both outcomes accepted, soundness of the stored value still checked. max_len=0 is treated as "no limit" as Pony does throughout.', 'DESIGN.md section 3 C08'),
+ 'C23': ('SX', 'model_checking',
+         'explicit-state BFS over read/modify histories; the same history replayed under seven loading strategies, observation sequences must be identical',
+         'Histories of depth <= 2 (thorough 3) of attribute reads, navigation, collection iteration/len/count/in/is_empty, key look-ups, scans and modifications on the populated fixture of 10 relationship models, replayed under: default, every scalar lazy, to-one relationships lazy, nplus1_threshold=0, nplus1_threshold=None, max_params_count=2, full prefetch first. Only statement counts may differ (guard: they do).',
+         'SQLite only; prefetch strategy = a prefetching scan of every entity at the start of the session.', 'DESIGN.md section 3 C23'),
+ 'C26': ('VX+DM', 'exploration',
+         'bounded-exhaustive enumeration of entity diagrams x naming overlays; catalog introspection (SQLite) and parsed DDL (PostgreSQL/MySQL/Oracle) against a spec-derived model',
+         'Every diagram of the option space (5 relationship kinds, required/optional, 6 primary-key kinds, cascade_delete, unique/composite_key/composite_index/index, nullable, defaults, inheritance chain/fork/diamond x 3 discriminator forms) with <= 3 entities plus naming overlays is rendered to class statements and mapped on four dialects. SQLite: real catalog vs model (columns, nullability, pk, uniques, indexes, FK targets, ON DELETE, m2m tables, table set), check_tables on a second Database, create order. Others: DDL of the real providers parsed and held to the same model plus name length/distinctness, FK types, statement order.',
+         'PostgreSQL/MySQL/Oracle servers are replaced by a DDL parser with modelled identifier limits and namespaces (model-based). Names the user wrote are not judged; any exception up to script generation counts as refusal.', 'DESIGN.md section 3 C26'),
+ 'C28': ('VX', 'model_checking',
+         'exhaustive enumeration of mutation programs of length <= 2 executed on a real tracked value and on a plain deep copy (reference model), state graph over documents',
+         'Every program of length <= 2 over 55 mutating method/operator forms of dict and list, at every container of two Json documents spanning all nesting chains to depth 2 and of Int/Str/Float arrays, reached through the attribute, through aliases bound at every path prefix and through 9 last-hop access forms, with/without flush, from 5 object origins: in-memory value, status, value read by a new session after commit and neighbouring attributes equal the plain-copy reference. ~8k read-only programs must leave the status unchanged and emit no write SQL.',
+         'SQLite only (the other backends share the TrackedValue code). Programs that build shared sub-objects through *= are not judged.', 'DESIGN.md section 3 C28'),
  'C09': ('SX', 'model_checking',
          'explicit-state BFS over operation histories on the real session cache; twin execution (session view before commit) vs independent raw dump after commit',
          'All histories of depth 2 (+ depth 3 ending in commit/end/rollback/raise) over the generated operation alphabet of 13 (thorough 21) entity models, from an empty and a populated database: after every commit the raw rows decoded with the column mapping equal the public view a twin read just before the commit; every other transition leaves the committed rows untouched.',
